@@ -94,7 +94,7 @@ theorem pollDispatch_acct (w w' : World) (op : Nat) (any : Bool) (rest : List K)
              rename_i hcond
              have hev : o.evR = true := by
                simp only [Bool.and_eq_true] at hcond; exact hcond.1.2
-             have b := setObj_bal w o { o with evR := false, tstate := .ready, cancelledRep := false } hn hg' rfl (-1) (by simp [bitsOf, hev] <;> omega)
+             have b := setObj_bal w o { o with evR := false, tstate := .ready, cancelledRep := (o.cancelledRep && info.kind != OpKind.timerRep) } hn hg' rfl (-1) (by simp [bitsOf, hev] <;> omega)
              exact acct_finish hI b 0 rfl (by simp [setObj]; omega) (by simp [hst, postFrames]))
           | (cases h; exact acct_finish hI (delRead_bal w o hn hg') 0 rfl (by simp) (by simp [hst, postFrames]))
           | (cases h; exact acct_finish hI (delWrite_bal w o hn hg') 0 rfl (by simp) (by simp [hst, postFrames]))
